@@ -6,6 +6,8 @@ HOOK_COMMITS = ["db46fe7"]
 
 # id -> technique (the deciding method, in a few words)
 TECH = {
+ "C01": "proptest over generated programs x events x external kinds (default / exact / widened): membership of result, returned value, final event/metadata and probed variables in the compiler's reported types, decided by an independent membership predicate",
+ "C02": "proptest over generated `!`-free, abort-free programs x events x external kinds: no runtime error (NaN exempt), ProgramInfo consistency, and a hook recorder for infallible-typed sites that fail even when the error is swallowed",
  "C06": "differential proptest: generated programs with `return` injected at every grammar position vs reference interpreter; pinned source-level regressions",
  "C07": "differential proptest: generated programs with `abort` injected at every grammar position vs reference interpreter; pinned source-level regressions",
  "C08": "differential proptest: `??` / `ok, err =` dense programs vs reference interpreter, plus membership of the stored default in the compiler's reported type",
